@@ -4,14 +4,15 @@ set_option linter.unusedVariables false
 namespace TdModel.Rpc
 
 set_option maxHeartbeats 8000000 in
-theorem close_loop {cfg : Cfg} {s s' : State} {i : Nat} {b : LoopBr} (hg : cfg.guard = true) (h : Close s) (hi : Inv s)
+theorem close_loop {cfg : Cfg} {s s' : State} {i : Nat} {b : LoopBr} (hg : cfg.std = true) (h : Close s) (hi : Inv s)
     (hs : stepLoop cfg s i b = some s') : Close s' := by
   unfold stepLoop at hs
+  std_norm hg at hs
   split at hs
   · simp at hs
   · split at hs
     · simp at hs
-    · dsimp only at hs
+    · try dsimp only at hs
       split at hs
       all_goals (split at hs <;> try (simp at hs))
       all_goals (try (split at hs <;> try (simp at hs)))
@@ -19,9 +20,10 @@ theorem close_loop {cfg : Cfg} {s s' : State} {i : Nat} {b : LoopBr} (hg : cfg.g
       all_goals close_close hg
 
 set_option maxHeartbeats 8000000 in
-theorem close_wait {cfg : Cfg} {s s' : State} {i : Nat} {b : WaitBr} (hg : cfg.guard = true) (h : Close s) (hi : Inv s)
+theorem close_wait {cfg : Cfg} {s s' : State} {i : Nat} {b : WaitBr} (hg : cfg.std = true) (h : Close s) (hi : Inv s)
     (hs : stepWait cfg s i b = some s') : Close s' := by
   unfold stepWait at hs
+  std_norm hg at hs
   split at hs
   · simp at hs
   · split at hs
@@ -33,9 +35,10 @@ theorem close_wait {cfg : Cfg} {s s' : State} {i : Nat} {b : WaitBr} (hg : cfg.g
       all_goals close_close hg
 
 set_option maxHeartbeats 4000000 in
-theorem close_dret {cfg : Cfg} {s s' : State} {i : Nat} {o : Outcome} (hg : cfg.guard = true) (h : Close s) (hi : Inv s)
+theorem close_dret {cfg : Cfg} {s s' : State} {i : Nat} {o : Outcome} (hg : cfg.std = true) (h : Close s) (hi : Inv s)
     (hs : stepDret cfg s i o = some s') : Close s' := by
   unfold stepDret at hs
+  std_norm hg at hs
   split at hs
   · simp at hs
   · split at hs <;> simp at hs
@@ -43,15 +46,17 @@ theorem close_dret {cfg : Cfg} {s s' : State} {i : Nat} {o : Outcome} (hg : cfg.
     close_close hg
 
 set_option maxHeartbeats 4000000 in
-theorem close_gpass {s s' : State} {i : Nat} (h : Close s) (hi : Inv s) (hs : stepGpass s i = some s') : Close s' := by
+theorem close_gpass {cfg : Cfg} {s s' : State} {i : Nat} (hg : cfg.std = true) (h : Close s) (hi : Inv s)
+    (hs : stepGpass cfg s i = some s') : Close s' := by
   unfold stepGpass at hs
+  std_norm hg at hs
   split at hs
   · simp at hs
   · next c hc =>
     split at hs
     · next hcond =>
       simp at hs; subst hs
-      close_close True.intro
+      close_close hg
     · simp at hs
 
 end TdModel.Rpc
